@@ -169,11 +169,15 @@ func (store *BaseStore[E]) createCompositeEntitySymbol(name string, first linked
 		}
 	}
 	return &compositeEntitySetSymbol{
-		name:        name,
-		symbolType:  rest.GetType(),
-		chain:       iterable,
-		cursor:      nil,
-		cursorLastF: last.Eval,
+		name:       name,
+		symbolType: rest.GetType(),
+		chain:      iterable,
+		cursor:     nil,
+		cursorLastF: func(tx *bbolt.Tx, key []byte) (FieldType, []byte) {
+			// the cursor key is a typed set entry, the symbol expects the bare row id
+			_, rowId := GetTypeAndValue(key)
+			return last.Eval(tx, rowId)
+		},
 	}
 }
 
